@@ -56,7 +56,8 @@ type Contract struct {
 	Ensures       []*Clause
 	Invs          []*Clause // struct invariants
 	Assumes       []*Clause
-	Modifies      []string // frame items; nil = inferred
+	EntryAssumes  []*Clause // assumed at the entry of the function itself (listed as unchecked assumption)
+	Modifies      []string  // frame items; nil = inferred
 	HasMod        bool
 	Loops         map[int]*LoopSpec
 	Pos           token.Position
@@ -67,6 +68,7 @@ type Contract struct {
 	Overwrites    []string      // parameters (pointers to structs) every field of which is assigned on every path to a return
 	Pairs         string        // the load-time checker whose acceptance establishes the `checked` clauses
 	Checked       []*Clause     // facts established at load time by the paired checker (assumed at entry, proved as lemmas from the checker's postconditions)
+	Releases      []string      // parameters whose object invariant is not required at return (finalisers)
 	NoInv         []string      // parameters whose object invariant is neither assumed at entry nor required at calls (initialisers)
 	ExitsSeparate bool          // check the postconditions at every return separately instead of on the merged exit
 	Like          []string      // func blocks: copy requires/ensures/modifies of these contracts (same package)
@@ -328,6 +330,9 @@ func (cs *ContractSet) readFile(fset *token.FileSet, f *ast.File, pkgPath, pkgNa
 					cur.Overwrites = append(cur.Overwrites, rest)
 				case "noinv":
 					cur.NoInv = append(cur.NoInv, strings.Fields(rest)...)
+				case "releases":
+					// releases p: the object leaves the regime of its invariant (it is cleared and handed to a pool)
+					cur.Releases = append(cur.Releases, strings.Fields(rest)...)
 				case "exits":
 					cur.ExitsSeparate = rest == "separate"
 				case "like":
@@ -381,7 +386,7 @@ func (cs *ContractSet) readFile(fset *token.FileSet, f *ast.File, pkgPath, pkgNa
 					cl := &Clause{Kind: "checked", Text: rest, Props: props, Pos: pos, Pkg: pkgPath}
 					lastClause = cl
 					cur.Checked = append(cur.Checked, cl)
-				case "requires", "ensures", "invariant", "decreases", "assume", "ownrequires", "ownensures":
+				case "requires", "ensures", "invariant", "decreases", "assume", "entryassume", "ownrequires", "ownensures":
 					own := strings.HasPrefix(word, "own")
 					word = strings.TrimPrefix(word, "own")
 					cl := &Clause{Kind: word, Text: rest, Props: props, Pos: pos, Own: own, Pkg: pkgPath}
@@ -393,6 +398,8 @@ func (cs *ContractSet) readFile(fset *token.FileSet, f *ast.File, pkgPath, pkgNa
 						cur.Ensures = append(cur.Ensures, cl)
 					case word == "assume":
 						cur.Assumes = append(cur.Assumes, cl)
+					case word == "entryassume":
+						cur.EntryAssumes = append(cur.EntryAssumes, cl)
 					case word == "invariant" && curLoop != nil:
 						curLoop.Invariants = append(curLoop.Invariants, cl)
 					case word == "invariant" && cur.Kind == "struct":
